@@ -94,6 +94,12 @@ func genC05(t *core.Tape, tier string) *Scenario {
 	if t.Bool(1, 3, "fail") {
 		p.HErr = genErrPlan(t, sc.Notes, p.bin)
 		p.HErr.Plain, p.HErr.NilErr = false, false
+		if mode == 2 && t.Bool(1, 4, "proxied.status.keys") {
+			// a handler that passes an upstream gRPC error's metadata through:
+			// the wire must still carry exactly one status, the handler's own
+			p.HErr.ProxyMeta = http.Header{"Grpc-Status": {"5"}, "Grpc-Message": {"upstream said no"}}
+			sc.Notes["proxied_status_keys"]++
+		}
 		if p.Kind == KServer || p.Kind == KBidi {
 			// the error follows k messages
 			k := t.Choose(len(p.RespMsgs)+1, "err.after")
